@@ -100,7 +100,7 @@ class C07(InterpProp):
         if rnd.random() < 0.4:      # deep histories over orthogonal content: set order of the memory
             return gen.Knobs(contracts=0.0, p_orth=0.7, p_history=0.9, nested_targets=0.7, p_guard=0.15,
                              max_states=rnd.choice([12, 18, 24]), trans_per_owner=1.5, max_depth=5, history_focus=0.9)
-        return gen.Knobs(contracts=self.with_contracts, p_orth=0.5, nested_targets=0.4,
+        return gen.Knobs(contracts=self.with_contracts, p_orth=0.5, nested_targets=0.4, zero_names=rnd.choice([0, 0, 0.4]),
                          max_states=rnd.choice([8, 14, 20]), trans_per_owner=2.0)
 
     def gen_case(self, rnd, tier):
@@ -150,6 +150,12 @@ class C07(InterpProp):
         if ops1 is None:
             ops1 = gen.gen_ops(rnd, kn, self.n_ops)
         ops = [['create', 0, False, ctx0, 0], ['create', 1, False, ctx0, 0]]
+        echo = rnd.random() < 0.08
+        if echo:
+            # several callables bound to the interpreter answer what it sends, each with its own number: the answers
+            # are consumed in binding order (implementation only)
+            nm = rnd.choice(gen.EVENTS)
+            ops1 = [['bindecho', 0, k, nm] for k in range(rnd.choice([3, 5, 8]))] + list(ops1)
         for op in ops1:
             ops.append(op)
             op2 = list(op)
@@ -160,6 +166,8 @@ class C07(InterpProp):
                    'hashseed': rnd.randint(1, 4000) if deep else rnd.choice([None] * 3 + [rnd.randint(1, 4000)])}
         if history:
             payload['history'] = history
+        if echo:
+            payload['no_model'] = True
         return Case(payload, {'charts': [sc, sc2]}, model_ok=e1.supported and e2.supported)
 
     def rebuild(self, payload):
